@@ -320,7 +320,18 @@ def corpus():
         extra_after.append({"class": "bad_member", "site": "corpus:bundle-port-given-instance-of-wider-type" + ("-on-array" if arr else ""), "design": dw})
     more = hidden + extra_after + [{"class": "bad_member", "site": "corpus:bundle-instance-of-wider-type-in-anonymous-bundle", "design": anoninst}] + [{"class": "noconn_referenced", "site": "corpus:reference-in-anonymous-bundle", "design": ncanon},
                      {"class": "bad_member", "site": "corpus:pair-on-wider-bundle-type", "design": pairtri}]
-    return more + [{"class": "missing_connection", "site": "corpus", "design": d1}, {"class": "width_mismatch", "site": "corpus", "design": d2},
+    # instance arrays wired with connections that are neither the port's width nor n times it: every width from n*w - w + 1 to n*w + w - 1
+    # but n*w itself, on a two-bit and a three-bit port (seeds C02-1, C02-r8-2: a floor division takes n*w + r for n*w and drops the top bits)
+    arrw = []
+    for w, n in ((2, 3), (3, 2)):
+        leafw = {"k": "leaf", "kind": f".EA{w}", "ports": [{"n": "q", "w": w}], "params": [], "py": {"k": "ext", "name": f"EA{w}"}}
+        for cw in range(n * w - w + 1, n * w + w):
+            if cw == n * w or cw == w:
+                continue
+            arrw.append({"class": "width_mismatch", "site": f"corpus:array-{n}x{w}-given-{cw}-bits",
+                         "design": {"bundles": [], "top": "Top", "modules": [{"name": "Top", "sigs": [{"n": "s", "w": cw, "port": True, "dir": "none"}], "bundles": [],
+                                    "insts": [{"n": "arr", "array": n, "of": copy.deepcopy(leafw), "conns": [["q", {"k": "sig", "n": "s"}]]}]}]}})
+    return more + arrw + [{"class": "missing_connection", "site": "corpus", "design": d1}, {"class": "width_mismatch", "site": "corpus", "design": d2},
             {"class": "bad_index", "site": "corpus", "design": d3}, {"class": "bad_index", "site": "corpus:int-at-width", "design": d4}] + extras
 
 
